@@ -17,7 +17,8 @@
    Non-vacuity examples for every theorem: C03/Examples.v. *)
 From Coq Require Import List ZArith Bool.
 From TskVerif Require Import Base.Common C03.Model C03.Spec C03.AlleleProofs C03.PaintProofs
-     C03.DecodeProofs C03.HistoryProofs C03.RuleProofs C03.TotalProofs C03.DfsTotalProofs C03.PyViews C03.ViewsProofs.
+     C03.DecodeProofs C03.HistoryProofs C03.RuleProofs C03.TotalProofs C03.DfsTotalProofs C03.PyViews C03.ViewsProofs
+     C03.MutParents C03.ParentProofs C03.InitProofs.
 Import ListNotations.
 Open Scope Z_scope.
 
@@ -185,3 +186,72 @@ Theorem counts_duplicate_pinned_refuted :
     PyViews.dict_get (PyViews.counts_model_pinned r) (Some a) = Some 0 /\
     PyViews.dict_get (PyViews.counts_model r) (Some a) = Some 1.
 Proof. exact counts_duplicate_pinned_refuted_w. Qed.
+
+(* The order hypothesis in its mutation.parent-column form.  [mut_parent] is the model of the
+   per-site part of tsk_table_collection_compute_mutation_parents (previous mutation on the same
+   node, else the LAST mutation on the nearest mutated strict ancestor).  If every computed
+   parent precedes its child — the condition whose violation is
+   TSK_ERR_MUTATION_PARENT_AFTER_CHILD — the mutation list satisfies [order_ok], the hypothesis
+   of paint_nearest / missing_exact / decode_follows_rule.  ([parents_ok_b], evaluated on every
+   correspondence case against the column the library computes, is sound for the premise:
+   ParentProofs.parents_ok_b_sound.)  Examples: ex_parents, ex_parents_violation. *)
+Theorem parents_imply_order_ok : forall par fuel (muts : list (Z * allele)),
+  parents_precede par fuel (map fst muts) -> order_ok par muts.
+Proof. exact parents_imply_order_ok_l. Qed.
+
+(* Variant.states(): the missing-data string exactly at MISSING genotypes, else the decoded
+   allele (same alleles[-1] mechanism as the haplotypes) *)
+Theorem states_correct : forall mds g al hm st,
+  (hm = true <-> exists k, get g k = Ok MISSING) ->
+  PyViews.states_model mds (g, al, hm) = Ok st ->
+  length st = length g /\
+  forall k gk, get g k = Ok gk ->
+    (gk = MISSING -> get st k = Ok mds) /\
+    (forall a, gk <> MISSING -> get al gk = Ok a -> get st k = Ok a).
+Proof. exact states_correct_l. Qed.
+
+(* Variant.num_missing is positive iff some genotype is MISSING; num_alleles counts the alleles
+   without the None marker *)
+Theorem num_missing_pos : forall g al hm,
+  0 < PyViews.num_missing_model (g, al, hm) <-> exists k, get g k = Ok MISSING.
+Proof. exact num_missing_pos_l. Qed.
+
+Theorem num_alleles_is_length : forall g al hm, PyViews.num_alleles_model (g, al, hm) = zlen al.
+Proof. exact num_alleles_l. Qed.
+
+(* genotype_matrix: row i is the genotypes of the decode of site i (so all the theorems about
+   decode apply to every row) *)
+Theorem genotype_matrix_rows : forall fuel v sites m,
+  PyViews.genotype_matrix_model fuel v sites = Ok m ->
+  length m = length sites /\
+  forall i t s, get sites i = Ok (t, s) ->
+    exists row al hm, get m i = Ok row /\ decode fuel t v s = Ok (row, al, hm).
+Proof. exact genotype_matrix_rows_l. Qed.
+
+(* alignments(), complete model (discrete genome, interval and integer checks, reference
+   selection, isolated samples, Variant init, haplotype errors, shared-buffer assembly): a
+   successful call returns, for every requested node, the selected reference (argument, else
+   the embedded slice data[left:right], else missing-data characters) overwritten at the site
+   positions with that node's haplotype row; every failed precondition is an error. *)
+Theorem alignments_full_spec : forall a out,
+  PyViews.alignments_full a = Ok out -> NoDup (PyViews.ai_pos a) ->
+  PyViews.ai_discrete a = true /\ PyViews.ai_isolated a = false /\
+  (exists iv, PyViews.check_range (PyViews.ai_L2 a) (PyViews.ai_left2 a) (PyViews.ai_right2 a) = Ok iv) /\
+  Z.even (PyViews.ai_left2 a) = true /\ Z.even (PyViews.ai_right2 a) = true /\
+  zlen (selected_reference a) = PyViews.ai_right2 a / 2 - PyViews.ai_left2 a / 2 /\
+  exists rows, PyViews.haplotypes_model (PyViews.ai_mdc a) (PyViews.ai_nsamples a) (PyViews.ai_results a) = Ok rows /\
+    forall i h, get rows i = Ok h ->
+      exists row, get out i = Ok row /\
+                  PyViews.overwrite (selected_reference a) (PyViews.ai_left2 a / 2) (PyViews.ai_pos a) h = Ok row.
+Proof. exact alignments_full_spec_l. Qed.
+
+(* tsk_variant_init with an explicit samples list: a successful init yields the traversal
+   configuration whose sample_index_map is the inverse of the requested nodes (the
+   [index_map_rep] component of tree_rep is established by the code, not assumed), and with
+   isolated_as_missing on every requested node is a sample.  Examples: ex_init2, ex_init_err. *)
+Theorem variant_init_index_map : forall flags ts_samples ts_map ss alleles impute v,
+  variant_init flags ts_samples ts_map (Some ss) alleles impute = Ok v ->
+  v_samples v = ss /\ v_by_traversal v = true /\ v_impute v = impute /\ v_num_nodes v = zlen flags /\
+  index_map_rep (zlen flags) ss (v_index_map v) /\
+  (impute = false -> forall u, In u ss -> exists fl, get flags u = Ok fl /\ Z.odd fl = true).
+Proof. exact variant_init_index_map_l. Qed.
